@@ -1,7 +1,78 @@
-(* C16 — property theorems (statements only; proofs live in Proofs.v). *)
-From Coq Require Import ZArith QArith List Bool.
-Require Import QV.C16.Model QV.C16.Spec QV.C16.Proofs.
+(* C16 — property theorems (statements only; proofs live in Proofs*.v). *)
+From Coq Require Import ZArith QArith Qabs List Bool.
+Require Import QV.C16.Model QV.C16.Spec QV.C16.Proofs QV.C16.Proofs2 QV.C16.Proofs3.
+Import ListNotations.
+Open Scope Z_scope.
 
+(* The full property for the model (NOT proved as one theorem; the proved parts follow, the remaining gap is the
+   index bookkeeping of parse_aseq_program / segment de-duplication, which is covered by the correspondence check and
+   by evaluating `expand` on the implementation's tables in every case). *)
+Definition C16_plays_statement : Prop :=
+  forall c tbl prog o,
+    good prog = true -> 1 <= c_min c ->
+    (forall w1 w2 d1 d2, nth_error tbl w1 = Some d1 -> nth_error tbl w2 = Some d2 -> wf_cls d1 = wf_cls d2 -> d1 = d2) ->
+    (forall w d, nth_error tbl w = Some d -> (wf_len d == inject_Z (wf_n d))%Q) ->
+    compile c tbl prog = Ok o ->
+    exists s, spec c tbl prog = Some s /\ expand o = Some s.
+
+(* (1) restructuring: for EVERY fuel of the two loops (termination is not claimed), every tree shape, repetition
+   count, measurement flag and device limit: if flatten_and_balance(2) and prepare_program_for_advanced_sequence_mode
+   finish, the tables they leave play exactly the leaves of the source program, in order and multiplicity *)
+Theorem C16_plays_restructuring_partial : forall prog f1 f2 mn mx ch1 ch2,
+  good prog = true ->
+  depth (root_of prog) >? 1 = true -> l_rep (root_of prog) =? 1 = true ->
+  fab f1 2 [] (l_ch (root_of prog)) = Ok ch1 ->
+  prep f2 mn mx [] ch1 = Ok ch2 ->
+  forallb tgood ch2 = true /\ flatten (set_ch (root_of prog) ch2) = flatten prog /\ flatten prog = flat_list ch2.
+Proof. exact restructure_preserves. Qed.
+Print Assumptions C16_plays_restructuring_partial.
+
+(* (2) one segment: the uploaded binary of a sampled waveform, decoded by the table player's `decode_segment`
+   (channel B | channel A with marker bits 14/15 in words 8..15 of every quantum), is exactly the 14-bit codes of both
+   channels and the marker booleans at half rate; its size is twice the number of samples *)
+Theorem C16_plays_segment_partial : forall c wd bin,
+  sample_segment c wd = Ok bin -> 0 <= wf_n wd -> wf_n wd mod 16 = 0 ->
+  exists a b ma mb,
+    channel_data wd (c_cha c) (c_amp_a c) (c_off_a c) (c_tr_a c) = Ok a /\
+    channel_data wd (c_chb c) (c_amp_b c) (c_off_b c) (c_tr_b c) = Ok b /\
+    marker_data wd (c_ma c) = Ok ma /\ marker_data wd (c_mb c) = Ok mb /\
+    Z.of_nat (length bin) = 2 * wf_n wd /\
+    decode_segment bin = {| s_a := a; s_b := b; s_ma := ma; s_mb := mb |}.
+Proof. exact sample_segment_decodes. Qed.
+Print Assumptions C16_plays_segment_partial.
+
+(* (3) quantisation: the code is a nearest integer, ties go to the even one, and it fits in 14 bits *)
+Theorem C16_quantise_nearest_even : forall q,
+  (Qabs (q - inject_Z (rint q)) <= 1 # 2)%Q /\
+  ((Qabs (q - inject_Z (rint q)) == 1 # 2)%Q -> Z.even (rint q) = true).
+Proof. intros q. split; [apply rint_nearest|apply rint_tie_even]. Qed.
+Print Assumptions C16_quantise_nearest_even.
+
+Theorem C16_codes_14bit : forall amp off v w, (0 < amp)%Q -> v2u amp off v = Some w -> 0 <= w < 16384.
+Proof. exact v2u_code_ok. Qed.
+Print Assumptions C16_codes_14bit.
+
+(* (4) limits: whatever the compiler emits, every segment has >= 192 points, a multiple of 16, and the reported
+   length; in ADVANCED mode every sequencer table has between min_seq_len and max_seq_len entries *)
+Theorem C16_limits : forall c tbl prog o, compile c tbl prog = Ok o ->
+  segments_ok o = true /\ (o_advanced o = true -> tables_ok c o = true).
+Proof. exact compile_limits. Qed.
+Print Assumptions C16_limits.
+
+(* ... and in SINGLE mode the table length is not checked at all (known finding single_mode_table_length_unchecked);
+   guard of C16_limits = `o_advanced o = true` *)
+Theorem C16_limits_single_mode_refuted :
+  exists c tbl prog o, compile c tbl prog = Ok o /\ o_advanced o = false /\ tables_ok c o = false.
+Proof. exists (ex_cfg 3 4), ex_tbl, ex_single. exact single_mode_tables_unchecked. Qed.
+Print Assumptions C16_limits_single_mode_refuted.
+
+(* (5) a rejected program produces no tables *)
 Theorem C16_reject : forall c tbl p e, compile c tbl p = Err e -> forall o, compile c tbl p <> Ok o.
 Proof. exact reject_no_tables. Qed.
 Print Assumptions C16_reject.
+
+(* non-vacuity: a good depth-3 program that needs encapsulation, merging, neighbour unrolling and partial unrolling is
+   accepted in advanced mode with limits (3, 5); its tables played by `expand` equal `spec`, all limits hold *)
+Theorem C16_example_accepted : good ex_prog = true /\ ex_accepts = true.
+Proof. split; [exact ex_good|exact ex_accepts_true]. Qed.
+Print Assumptions C16_example_accepted.
